@@ -90,7 +90,7 @@ func extractArg(x *Exec, o *Obligation, v Value, t types.Type) (expr string, ok 
 		}
 		var terms []string
 		for k := int64(0); k < n; k++ {
-			terms = append(terms, x.sat(base, Add(off, IntLit(k))).S)
+			terms = append(terms, x.sat(base, At(off, IntLit(k))).S)
 		}
 		m := modelQuery(x, o, terms)
 		if m == nil && n > 0 {
@@ -114,7 +114,7 @@ func extractArg(x *Exec, o *Obligation, v Value, t types.Type) (expr string, ok 
 		arr := x.heapGet(x.entry, "E|uint8|", ArrSort(SInt, ArrSort(SInt, SInt)))
 		var terms []string
 		for k := int64(0); k < n; k++ {
-			terms = append(terms, Select(Select(arr, s.Arr), Add(s.Off, IntLit(k))).S)
+			terms = append(terms, Select(Select(arr, s.Arr), At(s.Off, IntLit(k))).S)
 		}
 		m := modelQuery(x, o, terms)
 		if m == nil && n > 0 {
@@ -178,7 +178,7 @@ func extractArg(x *Exec, o *Obligation, v Value, t types.Type) (expr string, ok 
 				}
 				var parts []string
 				for k := int64(0); k < n; k++ {
-					p := &Place{Kind: PElem, Ref: s.Arr, Idx: Add(s.Off, IntLit(k)), Root: u.Elem(), Typ: u.Elem()}
+					p := &Place{Kind: PElem, Ref: s.Arr, Idx: At(s.Off, IntLit(k)), Root: u.Elem(), Typ: u.Elem()}
 					x.quiet++
 					ev := x.loadPlace(x.entry, p).(VSlice)
 					x.quiet--
